@@ -433,4 +433,234 @@ theorem switchClosed_of_certify (σ : St Nat (Node W)) (hc : certifyN t σ = tru
 
 end certifyN2
 
+/-! ## 5. the theorem for a certified labelled network -/
+
+section certifiedN
+variable (t : TopoN) (apps : Nat → HostApp W) (tbls : Nat → SwitchTbl W) (rarps : Nat → RouterArp W) (bases : Nat → Soft W)
+
+theorem arpReply_exempt (o i : Iface) (f : Frame) : subjectToAcl (arpReplyFrame o i f) = some false := by
+  simp [subjectToAcl, arpReplyFrame]
+
+/-- **C06 for a certified labelled network: nothing is assumed of the attacker side, nothing of a blocking router's software.**
+If `certifyN` accepts the network in state `σ`, then for ALL services and applications of the attacker-side hosts (they
+reach the network through the session manager), ALL contents of the switches' MAC tables, ALL opaque parts of a blocking
+router's ARP service and ALL of its other software, any sequence of local operations on attacker-side hosts — each with all
+the traffic it triggers, re-entrance included — leaves every protected node, and every frozen one, exactly as in `σ`.
+The only hypothesis left is `FwSecondOK` at a FIREWALL port whose first list lets the class through (vacuous when the first
+list denies it). -/
+theorem C06_certifiedN_unchanged (σ : St Nat (Node W)) (hc : certifyN t σ = true)
+    (hfw : ∀ n, t.side n = true → t.role n = .fwDenyC → ∀ p e,
+      SideFacing (topoSysN t apps tbls rarps bases) t.side n p → portEntry p = some e →
+      denyClassCheck t.cls ((σ n).acls (entryAcl e)) = false →
+      FwSecondOK (topoSysN t apps tbls rarps bases) t.side (ClN t) (topoRoleN t apps tbls rarps bases σ) n
+        (softsN t apps tbls rarps bases n) (clsP t.toTopoC)
+        (fun e => denyClassCheck t.cls ((σ n).acls (entryAcl e))) (fun e2 => t.finalToProtected n e2 = false) p e)
+    (ops : List (Nat × Op Nat Nat Frame (Node W)))
+    (hops : ∀ o ∈ ops, t.side o.2.node = true ∧ t.role o.2.node = .interior ∧ t.kind o.2.node = .host ∧
+      ∃ a : Node W → SwScript W, o.2.script = fun s => hostOp s (a s)) :
+    ∀ m, (t.side m = false ∨ t.role m = .frozen) → runOps (topoSysN t apps tbls rarps bases) σ ops m = σ m := by
+  obtain ⟨hcC, hlab, hnode⟩ := certifyN_parts t σ hc
+  have hsound := fun n hn => C06_certifyC_sound t.toTopoC (softsN t apps tbls rarps bases)
+    (fun n => nodeRx (softsN t apps tbls rarps bases n)) σ hcC n hn
+  have hinvEq : ∀ n s, t.role n ≠ .interior →
+      (invC (topoSysN t apps tbls rarps bases) t.side (topoRoleN t apps tbls rarps bases σ) n s ↔
+       invC (topoSysN t apps tbls rarps bases) t.side (topoRoleC t.toTopoC (softsN t apps tbls rarps bases) σ) n s) := by
+    intro n s h
+    unfold invC
+    rw [topoRoleN_noninterior t apps tbls rarps bases σ n h]
+  have hhost : ∀ n, t.role n = .interior → t.kind n = .host → ∀ s,
+      invC (topoSysN t apps tbls rarps bases) t.side (topoRoleN t apps tbls rarps bases σ) n s ↔
+        (s.kind = .host ∧ s.ifaces = (σ n).ifaces) := by
+    intro n hr hk s; simp [invC, topoRoleN, hr, hk]
+  have hswitch : ∀ n, t.role n = .interior → t.kind n = .switch → ∀ s,
+      invC (topoSysN t apps tbls rarps bases) t.side (topoRoleN t apps tbls rarps bases σ) n s ↔ s.kind = .switch := by
+    intro n hr hk s; simp [invC, topoRoleN, hr, hk]
+  have hroles : ∀ n, t.side n = true →
+      RoleOKC (topoSysN t apps tbls rarps bases) t.side (ClN t) (topoRoleN t apps tbls rarps bases σ) n := by
+    intro n hn
+    have hs := hsound n hn
+    have hcn := hnode n hn
+    unfold RoleOKC
+    cases hr : t.role n with
+    | interior =>
+      cases hk : t.kind n with
+      | host =>
+        simp only [topoRoleN, hr, hk]
+        obtain ⟨_, hcl⟩ := hostClosed_of_certify t apps tbls rarps bases σ hc n hn hr hk
+        refine ⟨by rw [topoSysN_handler]; simp [softsN, hr, hk], ?_⟩
+        intro s p f hJ hsf hcl'
+        exact C06_host_safe _ t.side (ClN t) _ n (σ n).ifaces hn (hhost n hr hk) hcl (apps n) s p f
+          ((hhost n hr hk s).mpr hJ) hsf hcl'
+      | switch =>
+        simp only [topoRoleN, hr, hk]
+        obtain ⟨_, hcl⟩ := switchClosed_of_certify t apps tbls rarps bases σ hc n hn hr hk
+        refine ⟨by rw [topoSysN_handler]; simp [softsN, hr, hk], ?_⟩
+        intro s p f hJ hsf hcl'
+        exact C06_switch_safe _ t.side (ClN t) _ n hn (hswitch n hr hk) hcl (tbls n) s p f
+          ((hswitch n hr hk s).mpr hJ) hsf hcl'
+      | other => simp [certifyNodeN, hr, hk] at hcn
+    | ifaceDown => simp [certifyNodeN, hr] at hcn
+    | routerOff =>
+      rw [topoRoleN_noninterior t apps tbls rarps bases σ n (by rw [hr]; simp)]
+      simp only [topoRoleC, hr]
+      rw [topoSysN_handler]
+    | frozen =>
+      rw [topoRoleN_noninterior t apps tbls rarps bases σ n (by rw [hr]; simp)]
+      simp only [topoRoleC, hr]
+      rw [topoSysN_handler]
+    | fwDenyC =>
+      have hne : t.role n ≠ .interior := by rw [hr]; simp
+      have hrole := topoRoleN_noninterior t apps tbls rarps bases σ n hne
+      rw [hrole]
+      simp only [topoRoleC, hr]
+      obtain ⟨harp, hports⟩ := hs.2.2.2 hr
+      refine ⟨topoSysN_handler t apps tbls rarps bases n, ?_, ?_⟩
+      · intro p f hcl
+        rcases hcl.1 with h | ⟨h, _⟩
+        · exact h
+        · rw [harp] at h; cases h
+      · intro p e hsf hpe
+        cases hD : denyClassCheck t.cls ((σ n).acls (entryAcl e)) with
+        | true => exact Or.inl rfl
+        | false =>
+          right
+          refine ⟨hfw n hn hr p e hsf hpe hD, ?_⟩
+          rcases hports p e hsf hpe with h | h
+          · rw [hD] at h; cases h
+          · exact h
+    | routerDenyC =>
+      have hne : t.role n ≠ .interior := by rw [hr]; simp
+      have hrole := topoRoleN_noninterior t apps tbls rarps bases σ n hne
+      have hsoft : softsN t apps tbls rarps bases n = routerArpSoft (rarps n) (bases n) := by simp [softsN, hr]
+      simp only [certifyNodeN, hr, Bool.and_eq_true] at hcn
+      obtain ⟨harpEx, hall⟩ := hcn
+      have hfacts : ∀ q i, (σ n).ifaces[q]? = some i → ifaceOnLabel i (t.label n q) = true ∧
+          t.rtrIfs.contains (i.mac, i.ip) = true := by
+        intro q i hi
+        have := zipIdx_all _ (σ n).ifaces 0 q i hall hi
+        simpa only [Nat.zero_add, Bool.and_eq_true] using this
+      have hroleN : topoRoleN t apps tbls rarps bases σ n =
+          .routerDenyC (routerArpSoft (rarps n) (bases n)) (clsP t.toTopoC) (σ n).ifaces := by
+        rw [hrole]; simp only [topoRoleC, hr, hsoft]
+      rw [hroleN]
+      simp only
+      refine ⟨by rw [topoSysN_handler, hsoft], ?_, ?_⟩
+      · intro p f hcl hsub
+        rcases hcl.1 with h | ⟨_, h⟩
+        · exact h
+        · rw [hsub] at h; cases h
+      · refine C06_router_arp_safe (topoSysN t apps tbls rarps bases) t.side (ClN t) (topoRoleN t apps tbls rarps bases σ) n
+          (rarps n) (bases n) (clsP t.toTopoC) (σ n).ifaces hroleN ?_ ?_ ?_ hn
+        · -- class facts about genuine ARP packets, from `ClN`
+          intro p i f hsf hcl hsub hi
+          obtain ⟨hlbl, hmem⟩ := hfacts p i hi
+          have hwf := hcl.2 hsub
+          refine ⟨fun hreq => ⟨(hwf.1 hreq).1, ifaceOnLabel_inNet i _ _ hlbl (hwf.1 hreq).2.1⟩, ?_⟩
+          intro hrep hmac
+          have hb := hwf.2 hrep
+          rw [hmac] at hb
+          exact bindOK_mem _ _ _ _ hb hmem
+        · exact hs.2.2.1 hr
+        · -- the router's own reply is a well-formed genuine ARP packet
+          intro p f x q o i m r' hsf hcl hsub hreq hw
+          refine ⟨Or.inr ⟨harpEx, arpReply_exempt _ _ _⟩, ?_⟩
+          intro _
+          refine ⟨fun h => by simp [arpReplyFrame] at h, fun _ => ?_⟩
+          exact ((hcl.2 hsub).1 hreq).2.2
+  have hσ : ∀ n, t.side n = true →
+      invC (topoSysN t apps tbls rarps bases) t.side (topoRoleN t apps tbls rarps bases σ) n (σ n) := by
+    intro n hn
+    cases hr : t.role n with
+    | interior =>
+      cases hk : t.kind n with
+      | host => exact (hhost n hr hk _).mpr ⟨(hostClosed_of_certify t apps tbls rarps bases σ hc n hn hr hk).1, rfl⟩
+      | switch => exact (hswitch n hr hk _).mpr (switchClosed_of_certify t apps tbls rarps bases σ hc n hn hr hk).1
+      | other => have hcn := hnode n hn; simp [certifyNodeN, hr, hk] at hcn
+    | ifaceDown => exact (hinvEq n _ (by rw [hr]; simp)).mpr (hsound n hn).1
+    | routerOff => exact (hinvEq n _ (by rw [hr]; simp)).mpr (hsound n hn).1
+    | routerDenyC => exact (hinvEq n _ (by rw [hr]; simp)).mpr (hsound n hn).1
+    | fwDenyC => exact (hinvEq n _ (by rw [hr]; simp)).mpr (hsound n hn).1
+    | frozen => exact (hinvEq n _ (by rw [hr]; simp)).mpr (hsound n hn).1
+  have hops' : ∀ o ∈ ops, SafeOp (topoSysN t apps tbls rarps bases) t.side
+      (FromSideC (topoSysN t apps tbls rarps bases) t.side (ClN t))
+      (invC (topoSysN t apps tbls rarps bases) t.side (topoRoleN t apps tbls rarps bases σ)) o.2 := by
+    intro o ho
+    obtain ⟨h1, h2, h3, a, ha⟩ := hops o ho
+    refine ⟨h1, ?_⟩
+    intro s hs
+    rw [ha]
+    obtain ⟨_, hcl⟩ := hostClosed_of_certify t apps tbls rarps bases σ hc o.2.node h1 h2 h3
+    exact C06_hostOp_safe _ t.side (ClN t) _ o.2.node (σ o.2.node).ifaces h1 (hhost o.2.node h2 h3) hcl a s hs
+  intro m hm
+  have hgood := runOps_good _ t.side _ _ (C06_cut_class _ t.side (ClN t) _ hroles) ops σ hops' hσ
+  cases hsm : t.side m with
+  | false => exact hgood.2 m hsm
+  | true =>
+    rcases hm with hm | hm
+    · rw [hsm] at hm; cases hm
+    · have h := (hinvEq m _ (by rw [hm]; simp)).mp (hgood.1 m hsm)
+      simp only [invC, topoRoleC, hm] at h
+      exact h.1
+
+end certifiedN
+
+/-! ## 6. non-vacuity -/
+
+section examples
+
+def exSwitch : Node Unit :=
+  { kind := .switch, on := true, ifaces := [{ enabled := true, mac := 21, ip := 0, mask := 0 }, { enabled := true, mac := 22, ip := 0, mask := 0 }],
+    acls := fun _ => Acl.empty 0 .deny, sw := () }
+
+def exNetA : Ip × Ip := (0x0A000100#32, 0xFFFFFF00#32)
+def exNetB : Ip × Ip := (0x0A000200#32, 0xFFFFFF00#32)
+
+/-- A (0) — SW (1) — R (2) — B (3); R's list denies the source range 10.0.1.0/24 (and permits everything else) -/
+def exTopoN : TopoN :=
+  { nodes := [(true, .interior), (true, .interior), (true, .routerDenyC), (false, .interior)],
+    wires := [((0, 0), (1, 0)), ((1, 0), (0, 0)), ((1, 1), (2, 0)), ((2, 0), (1, 1)), ((2, 1), (3, 0)), ((3, 0), (2, 1))],
+    cls := [exSrcRange], arpExempt := true,
+    kinds := [.host, .switch, .other, .host],
+    labels := [((0, 0), exNetA), ((1, 0), exNetA), ((1, 1), exNetA), ((2, 0), exNetA), ((2, 1), exNetB), ((3, 0), exNetB)],
+    rtrIfs := [(11, 0x0A000101#32), (12, 0x0A000201#32)] }
+
+def exStatesN : Nat → Node Unit := fun n =>
+  if n = 1 then exSwitch else if n = 2 then exRouterC else exHost (if n = 0 then 0x0A00010A#32 else 0x0A000214#32)
+
+/-- the network-level certificate accepts A — SW — R — B with a source-range rule; it rejects the same network when A's address
+is outside the denied range, when the switch's ports are labelled with different subnets, when A carries the MAC of the
+router's interface (its ARP requests would then not be bound), when the rule is missing, and when A is declared a node of
+unknown kind -/
+example : certifyN exTopoN exStatesN = true ∧
+    certifyN exTopoN (fun n => if n = 0 then exHost 0x0A00050A#32 else exStatesN n) = false ∧
+    certifyN { exTopoN with labels := [((0, 0), exNetA), ((1, 0), exNetA), ((1, 1), exNetB), ((2, 0), exNetB), ((2, 1), exNetB), ((3, 0), exNetB)] }
+      exStatesN = false ∧
+    certifyN exTopoN (fun n => if n = 0 then { exHost 0x0A00010A#32 with ifaces := [{ enabled := true, mac := 11, ip := 0x0A00010A#32, mask := 0xFFFFFF00#32 }] }
+      else exStatesN n) = false ∧
+    certifyN exTopoN (fun n => if n = 2 then { exRouterC with acls := fun _ => Acl.empty 24 .permit } else exStatesN n) = false ∧
+    certifyN { exTopoN with kinds := [.other, .switch, .other, .host] } exStatesN = false := by decide
+
+/-- the theorem applies: whatever A's software does, whatever the switch has learned, whatever the router's other software is -/
+example (apps : Nat → HostApp Unit) (tbls : Nat → SwitchTbl Unit) (rarps : Nat → RouterArp Unit) (bases : Nat → Soft Unit)
+    (ops : List (Nat × Op Nat Nat Frame (Node Unit)))
+    (hops : ∀ o ∈ ops, o.2.node = 0 ∧ ∃ a : Node Unit → SwScript Unit, o.2.script = fun s => hostOp s (a s)) :
+    runOps (topoSysN exTopoN apps tbls rarps bases) exStatesN ops 3 = exStatesN 3 := by
+  apply C06_certifiedN_unchanged exTopoN apps tbls rarps bases exStatesN (by decide)
+  · intro n _ hr; exfalso; revert hr
+    match n with
+    | 0 | 1 | 2 | 3 => decide
+    | _ + 4 => intro hr; simp [TopoC.role, exTopoN] at hr
+  · intro o ho
+    obtain ⟨h0, a, ha⟩ := hops o ho
+    rw [h0]
+    exact ⟨by decide, by decide, by decide, a, ha⟩
+  · left; decide
+
+/-- a host's operation really emits: a stamped frame leaves on port 0 with A's own source -/
+example : hostOp (exHost 0x0A00010A#32) (.send () 0 exPing (fun w => .done w)) =
+    .send (exHost 0x0A00010A#32) 0 { exPing with srcMac := 5, pkt := { exPing.pkt with srcIp := 0x0A00010A#32 } } (fun s' => .done s') := by
+  simp [hostOp, liftSw, stampSends, guardSends, hostStamp, exHost, portEnabled, exPing]
+
+end examples
+
 end Primaite.Filter
